@@ -5,7 +5,7 @@ import sys, os, json, re, shutil, glob
 prop, mk, needs = sys.argv[1], sys.argv[2], sys.argv[3]
 rnd = sys.argv[4] if len(sys.argv) > 4 else ''   # '' = round 1, 'r2' = round 2
 history = sys.argv[5] if len(sys.argv) > 5 else ''
-src = f'/tmp/mut/out{"2" if rnd else ""}/{prop}/{mk}'
+src = f'/tmp/mut/out{rnd[1:] if rnd else ""}/{prop}/{mk}'
 res = f'/tmp/mut/results/{rnd + "_" if rnd else ""}{prop}_{mk}'
 dst = f'/verif/seeded/{prop}{rnd}-{mk}'
 os.makedirs(dst, exist_ok=True)
